@@ -511,6 +511,9 @@ func (s *rs_sim) observeInput(r *rs_rep, e rs_jev, pre, post raft.VState) {
 	if e.Ev == "recv" {
 		if e.M.T == "MsgVote" && post.Vote == e.M.From && (pre.Vote != post.Vote || pre.Term != post.Term) {
 			s.inc("votes_granted")
+			if pre.Term == post.Term {
+				s.inc("votes_without_term_change")
+			}
 			if r.restarts > 0 {
 				s.inc("votes_after_restart")
 			}
@@ -1507,6 +1510,123 @@ func (s *rs_sim) scenarioStallCatchup() {
 	s.calmRounds(2)
 }
 
+// electLeader: fair ticks and deliveries until some replica leads (bounded).
+func (s *rs_sim) electLeader() uint64 {
+	for k := 0; k < 80 && s.leaderID() == 0 && !s.panicked; k++ {
+		for _, id := range s.ids {
+			if r := s.reps[id]; s.live(r) && !s.blocked[id] {
+				s.drain(r)
+				if s.live(r) && r.rd == nil && s.leaderID() == 0 {
+					s.tick(r)
+				}
+			}
+		}
+		s.calmRounds(1)
+	}
+	s.calmRounds(3)
+	return s.leaderID()
+}
+
+// deliverTo delivers every message in flight from `from` to `to` of type t (bounded), each
+// followed by the receiver's complete Ready pipeline.
+func (s *rs_sim) deliverTo(from, to uint64, t pb.MessageType) int {
+	n := 0
+	for pass := 0; pass < 4; pass++ {
+		for j := 0; j < len(s.net); j++ {
+			m := s.net[j]
+			if m.From == from && m.To == to && m.Type == t {
+				r := s.reps[to]
+				if !s.live(r) {
+					return n
+				}
+				s.finishReady(r)
+				s.deliver(j, false, false)
+				if s.live(r) {
+					s.finishReady(r)
+				}
+				n++
+				j--
+			}
+		}
+	}
+	return n
+}
+
+// scenarioVoteSameTerm (PreVote and CheckQuorum off, >= 3 voters; from MC_ZRaft_Election_00
+// behaviours with two candidates in one term): voter B reaches term T by REJECTING candidate C
+// (C's log is behind) and then grants its vote, still in term T, to candidate A - a hard state
+// write that changes the vote but not the term.  What happens to that write across a crash is
+// for the specification to judge (PersistHS: a vote is must-sync).
+func (s *rs_sim) scenarioVoteSameTerm() {
+	s.phase = "vote-same-term"
+	a := s.electLeader()
+	if a == 0 {
+		return
+	}
+	av := raft.VerifState(s.reps[a].n)
+	var others []uint64
+	for _, id := range av.Voters {
+		if id != a && s.live(s.reps[id]) {
+			others = append(others, id)
+		}
+	}
+	if len(others) < 2 {
+		return
+	}
+	b, c := others[0], others[1]
+	ar, br, cr := s.reps[a], s.reps[b], s.reps[c]
+	s.blocked = map[uint64]bool{}
+	for _, id := range others[1:] {
+		s.blocked[id] = true // only B keeps up
+	}
+	if ar.rd != nil {
+		s.finishReady(ar)
+	}
+	s.propose(ar)
+	s.calmRounds(3)
+	// C campaigns while A is cut off: B rejects (C's log is behind) and moves to C's term
+	s.blocked = map[uint64]bool{a: true}
+	for _, id := range others[2:] {
+		s.blocked[id] = true
+	}
+	if !s.live(cr) || !s.live(br) {
+		s.blocked = map[uint64]bool{}
+		return
+	}
+	s.finishReady(cr)
+	s.campaign(cr)
+	s.finishReady(cr)
+	s.deliverTo(c, b, pb.MsgVote)
+	// A restarts (a follower of the old term with the complete log), campaigns for the same
+	// term as C and asks B
+	if !s.live(ar) {
+		s.blocked = map[uint64]bool{}
+		return
+	}
+	s.finishReady(ar)
+	s.crash(ar)
+	if ar.down && !ar.gone {
+		s.restart(ar)
+	}
+	if !s.live(ar) {
+		s.blocked = map[uint64]bool{}
+		return
+	}
+	s.drain(ar)
+	s.blocked = map[uint64]bool{}
+	for _, id := range others[1:] {
+		s.blocked[id] = true
+	}
+	if s.live(ar) && raft.VerifState(ar.n).Role != "StateLeader" {
+		s.campaign(ar)
+		s.finishReady(ar)
+		if s.deliverTo(a, b, pb.MsgVote) > 0 {
+			s.inc("scenario_vote_same_term_delivered")
+		}
+	}
+	s.blocked = map[uint64]bool{}
+}
+
 // scenarioGrowOne (profile growone; from MC_ZRaft_Conf behaviours and the restart rule): the
 // group grows from the single voter 1; replica 1 snapshots while it is alone, more than one
 // Ready page of ordinary entries and then AddNode 2, AddNode 3 follow in its log; 1 crashes,
@@ -1984,6 +2104,9 @@ func raftsim(args []string) error {
 		}
 		if s.cfg.Profile == "growone" {
 			s.scenarioGrowOne()
+		}
+		if (s.cfg.Profile == "mixed" || s.cfg.Profile == "noconf") && !s.cfg.PreVote && !s.cfg.CQ && len(s.cfg.Voters) >= 3 {
+			s.scenarioVoteSameTerm()
 		}
 		if s.cfg.Profile == "stall" {
 			for i := 0; i < 3 && !s.panicked; i++ {
